@@ -586,11 +586,83 @@ func oraclePollTiming(o *e2eOutcome, v vfn) {
 				fp := "polled-before-fully-transmitted"
 				if sum >= size {
 					fp = "polled-on-byte-count-with-duplicate-parts"
+				} else if mixedDescriptors(o, name, hash, q.Gen) {
+					fp = "sent-with-descriptor-mixing-two-versions"
 				}
 				v("C02", "poll-after-all-bytes-transmitted", fp, fmt.Sprintf("poll request #%d asks about %s (hash %s) when the receiver had acknowledged only %d of its %d bytes (bytes acknowledged counting repeats: %d)", q.ID, name, hash, got, size, sum))
 			}
 		}
 	}
+}
+
+// mixedDescriptors: did sender generation gen put parts of (name, hash) on the wire whose
+// descriptors do not describe one consistent transmission of that version - a send size
+// smaller than the file size although the file was not queued as a resumed one, or a
+// first part that does not start at offset 0 (the hash switched in the middle of a
+// file)?  That is the signature of the cache entry being updated in place under a
+// queued transmission (known finding); a tracker or poller that is wrong on its own
+// shows premature records with perfectly consistent descriptors.
+func mixedDescriptors(o *e2eOutcome, name, hash string, gen int) bool {
+	resumed := false
+	for _, e := range o.events {
+		if e.Kind == "q_push" && e.Name == name && e.Gen == gen && e.S == "recovered" {
+			resumed = true
+		}
+	}
+	if resumed {
+		return false
+	}
+	truth := int64(-1)
+	o.w.regMu.Lock()
+	for _, ver := range o.w.registry[name] {
+		if ver.MD5 == hash {
+			truth = int64(len(ver.Data))
+		}
+	}
+	o.w.regMu.Unlock()
+	// what the receiver was told differs from what the part said when the request
+	// began: the hash of a queued part changed between the two
+	told := map[string]string{}
+	for _, e := range o.events {
+		if e.Kind == "recv_part" && e.Name == name {
+			told[fmt.Sprintf("%d/%d/%d", e.Req, e.A, e.B)] = e.S
+		}
+	}
+	for _, d := range o.reqs {
+		if d.Class != "data" || d.Gen != gen {
+			continue
+		}
+		for _, p := range d.Parts {
+			if p.Name != name {
+				continue
+			}
+			if h, ok := told[fmt.Sprintf("%d/%d/%d", d.ID, p.Beg, p.End)]; ok && h != p.Hash && (h == hash || p.Hash == hash) {
+				return true
+			}
+		}
+	}
+	first := true
+	for _, d := range o.reqs {
+		if d.Class != "data" || d.Gen != gen {
+			continue
+		}
+		for _, p := range d.Parts {
+			if p.Name != name || p.Hash != hash {
+				continue
+			}
+			if p.Send > 0 && p.Send < p.Size {
+				return true
+			}
+			if truth > 0 && p.Size != truth {
+				return true // this hash announced with another version's file size
+			}
+			if first && p.Beg > 0 {
+				return true
+			}
+			first = false
+		}
+	}
+	return false
 }
 
 // oracleSentLog (C02 / C08): the sender records a version as sent (sent log, hand-over
@@ -668,11 +740,11 @@ func oracleSentLog(o *e2eOutcome, v vfn) {
 			fp := "logged-sent-before-fully-transmitted"
 			if sum >= truth {
 				fp = "polled-on-byte-count-with-duplicate-parts" // same root: bytes are added up per name, not ranges
-			} else if mix := covered(append(append([]iv{}, rs...), rsOther...)); (announcedSend[e.A] && e.A < truth && mix >= e.A) || mix >= truth {
-				// known: the transmission itself was cut to an OLDER version's size while its
-				// parts carry the newer version's hash (the cache entry a queued file points to
-				// is updated in place when the file is hashed again); the tracker did what the
-				// descriptors told it
+			} else if mix := covered(append(append([]iv{}, rs...), rsOther...)); mixedDescriptors(o, name, hash, e.Gen) || (e.A != truth && o.w.isVersionSize(name, e.A)) ||
+				(announcedSend[e.A] && e.A < truth && mix >= e.A) || mix >= truth {
+				// known: the transmission itself mixed two versions (the cache entry a queued
+				// file points to is updated in place when the file is hashed again); the
+				// tracker did what the descriptors told it
 				fp = "sent-with-descriptor-mixing-two-versions"
 			}
 			v("C02", "poll-after-all-bytes-transmitted", fp, fmt.Sprintf("%s (hash %s, %d bytes) was recorded as sent (%d bytes logged) at %s when the receiver had acknowledged only %d of its bytes (counting repeats: %d)", name, hash, truth, e.A, e.VT, got, sum))
@@ -718,6 +790,13 @@ func oracleRelease(o *e2eOutcome, v vfn) {
 				// for the other version of that name the receiver holds.  (A version that
 				// WAS completely received and is then answered wrongly is not this pattern.)
 				fp = "released-on-name-only-poll-for-version-incomplete-at-receiver"
+			} else if otherVersionHeld(o, r.Name, relHash) && olderReceivedOver(o, r.Name, relHash, lastPositivePoll(o, r.Name, r.VT)) {
+				// known pattern, same root: the released version was received completely, but
+				// before the receiver reached its verdict a late retransmission of an OLDER
+				// version of the name (a payload queued before the file changed) arrived and
+				// started the per-name record over; the receiver validated and kept the older
+				// version and the name-only poll was answered for it
+				fp = "released-on-name-only-poll-after-older-version-retransmitted-over-newer"
 			}
 			v("C02", "validated-copy-exists-at-release", fp, fmt.Sprintf("%s of %s at %s (sender generation %d): content on disk md5 %s, cache entry hash %s, but the receiver holds no validated copy of the released version (final: %v, waiting: %v)", what, r.Name, r.VT, r.Gen, r.SrcMD5, r.CacheHash, r.HeldFinal, r.HeldWait))
 		}
@@ -825,6 +904,41 @@ func completedAtReceiver(o *e2eOutcome, name, hash string, upTo int) bool {
 		}
 		rs = append(rs, iv{e.A, e.B})
 		if e.S == hash && size > 0 && covered(rs) >= size {
+			return true
+		}
+	}
+	return false
+}
+
+// olderReceivedOver: after the last part of version 'hash' of the name had been received
+// and before event 'upTo', the receiver received a part of an older version of the name
+// (older = written to the source earlier)
+func olderReceivedOver(o *e2eOutcome, name, hash string, upTo int) bool {
+	idx := map[string]int{}
+	n := 0
+	for _, e := range o.events {
+		if e.Kind == "write_source" && e.Name == name {
+			if _, ok := idx[e.S]; !ok {
+				n++
+				idx[e.S] = n
+			}
+		}
+	}
+	mine, ok := idx[hash]
+	if !ok {
+		return false
+	}
+	seen := false
+	for _, e := range o.events {
+		if e.Kind != "recv_part" || e.Name != name {
+			continue
+		}
+		if upTo >= 0 && e.Seq > upTo {
+			break
+		}
+		if e.S == hash {
+			seen = true
+		} else if i, ok := idx[e.S]; ok && seen && i < mine {
 			return true
 		}
 	}
